@@ -152,7 +152,24 @@ func exploreBounded(x *xctx, base []uint32, baseKinds []uint8, bound, maxRuns in
 		if runs >= maxRuns {
 			return nil, runs, false
 		}
+		if runs%16 == 0 && pastWorkerDeadline(45*time.Second) {
+			x.probe("schedule_enumeration_cut_at_worker_deadline")
+			return nil, runs, false
+		}
 	}
+}
+
+// workerDeadline is the end of the worker's time budget (zero in replays and
+// in the determinism self-check, which run one seed to its end). Workers start
+// no new seed after it; the long enumerations inside one seed (fault families
+// over a large file, crash points of a large settings file, schedule spaces)
+// stop shortly after it instead of holding the whole check up for minutes.
+// What was enumerated up to then stays checked; the cut is counted in the
+// evidence (probes.*_cut_at_worker_deadline).
+var workerDeadline time.Time
+
+func pastWorkerDeadline(grace time.Duration) bool {
+	return !workerDeadline.IsZero() && time.Now().After(workerDeadline.Add(grace))
 }
 
 // ---------- violations, records ----------
@@ -645,6 +662,7 @@ func TestVerifWorker(t *testing.T) {
 	if d := os.Getenv("VERIF_DEADLINE"); d != "" {
 		sec, _ := strconv.ParseInt(d, 10, 64)
 		deadline = time.Unix(sec, 0)
+		workerDeadline = deadline
 	}
 	viols := 0
 	for s := first; s < first+count; s++ {
